@@ -3,6 +3,7 @@ package main
 // Lemmas (pure SMT goals over spec functions), property explanations, extra coverage hooks.
 
 import (
+	"sync"
 	"fmt"
 	"go/token"
 	"go/types"
@@ -168,7 +169,54 @@ func propertyExplanation(prop string) string {
 
 var propertyNotes = map[string]string{}
 
-func extraCoverage(prop string, o *options) map[string]any { return nil }
+// extraCoverage: in the thorough tier every check also runs its must-fail corpus (deliberate
+// property-breaking edits applied in memory to /repo's current sources): each must make an obligation
+// of this property fail. A miss does not fail the check (the property still holds on the tree); it is
+// recorded so that a vacuous or weakened contract is noticed.
+func extraCoverage(prop string, o *options) map[string]any {
+	if o.tier != "thorough" || o.only != "" {
+		return nil
+	}
+	ms, err := loadMutants(o)
+	if err != nil {
+		return map[string]any{"must_fail_corpus": map[string]any{"error": err.Error()}}
+	}
+	var sel []mutant
+	for _, m := range ms {
+		if m.Property == prop && m.Disabled == "" {
+			sel = append(sel, m)
+		}
+	}
+	if len(sel) == 0 {
+		return map[string]any{"must_fail_corpus": map[string]any{"mutants": 0}}
+	}
+	results := make([]mutantOutcome, len(sel))
+	var wg sync.WaitGroup
+	sem := make(chan struct{}, 3)
+	for i, m := range sel {
+		i, m := i, m
+		wg.Add(1)
+		sem <- struct{}{}
+		go func() {
+			defer wg.Done()
+			defer func() { <-sem }()
+			results[i] = runMutant(m, o)
+		}()
+	}
+	wg.Wait()
+	caught := 0
+	var detail []map[string]any
+	for _, r := range results {
+		if r.caught {
+			caught++
+		} else {
+			fmt.Printf("MUST-FAIL-MISS property=%s mutant=%s (%s) %s\n", prop, r.m.ID, r.m.Note, r.problem)
+		}
+		detail = append(detail, map[string]any{"id": r.m.ID, "note": r.m.Note, "caught": r.caught, "failed_obligations": shorten(r.failed, 4), "problem": r.problem})
+	}
+	fmt.Printf("govc: must-fail corpus for %s: %d mutants, %d caught\n", prop, len(sel), caught)
+	return map[string]any{"must_fail_corpus": map[string]any{"mutants": len(sel), "caught": caught, "detail": detail}}
+}
 
 func cmdSelftest(args []string, o *options) int {
 	return runSelftest(args, o)
